@@ -3,7 +3,7 @@
    0x45..0xC4, 0xFC00+k for the saturating truncations 0xFC k, 0xFD000+k for vector instruction 0xFD k.
    Operands and results are bit patterns (unsigned Z). No proofs in this file. *)
 From Coq Require Import ZArith Bool List Uint63.
-From Verif Require Import Wasm.Numerics Wasm.NumericsF.
+From Verif Require Import Wasm.Numerics Wasm.NumericsF Wasm.NumericsV.
 Import ListNotations.
 Open Scope Z_scope.
 
@@ -141,12 +141,116 @@ Definition spec_float (op : Z) (args : list Z) : res :=
   else if op =? 0xfc07 then sat_res false 64 64 a
   else RNone.
 
-(* lanes of a vector, lane 0 = least significant *)
-Fixpoint split_lanes (n : nat) (w v : Z) : list Z :=
-  match n with
-  | O => []
-  | S n' => v mod 2 ^ w :: split_lanes n' w (v / 2 ^ w)
+(* ---- vector instructions (k = second opcode byte after 0xFD) ---- *)
+Definition flanes1 (w : Z) (f : Z -> Z) (a : Z) : res :=
+  RLanes w (map (fun x => fres w [x] (f x)) (lanes w a)).
+Definition flanes2 (w : Z) (f : Z -> Z -> Z) (a b : Z) : res :=
+  RLanes w (map2 (fun x y => fres w [x; y] (f x y)) (lanes w a) (lanes w b)).
+Definition demote_lane (x : Z) : res := if f_is_nan 64 x then RNan 32 (nan_canon_required 64 [x]) else RBits (f32_demote x).
+Definition promote_lane (x : Z) : res := if f_is_nan 32 x then RNan 64 (nan_canon_required 32 [x]) else RBits (f64_promote x).
+
+(* the integer operators share one layout at bases 0x60 (i8x16), 0x80 (i16x8), 0xa0 (i32x4), 0xc0 (i64x2) *)
+Definition int_family (w j a b : Z) : res :=
+  match j with
+  | 0 => RBits (v_abs w a) | 1 => RBits (v_neg w a)
+  | 3 => RBits (v_all_true w a) | 4 => RBits (v_bitmask w a)
+  | 5 => RBits (v_narrow_s w a b) | 6 => RBits (v_narrow_u w a b)
+  | 7 => RBits (v_extend true false (w / 2) a) | 8 => RBits (v_extend true true (w / 2) a)
+  | 9 => RBits (v_extend false false (w / 2) a) | 10 => RBits (v_extend false true (w / 2) a)
+  | 11 => RBits (v_shl w a b) | 12 => RBits (v_shr_s w a b) | 13 => RBits (v_shr_u w a b)
+  | 14 => RBits (v_add w a b) | 15 => RBits (v_add_sat_s w a b) | 16 => RBits (v_add_sat_u w a b)
+  | 17 => RBits (v_sub w a b) | 18 => RBits (v_sub_sat_s w a b) | 19 => RBits (v_sub_sat_u w a b)
+  | 21 => RBits (v_mul w a b)
+  | 22 => RBits (v_min_s w a b) | 23 => RBits (v_min_u w a b) | 24 => RBits (v_max_s w a b) | 25 => RBits (v_max_u w a b)
+  | 27 => RBits (v_avgr_u w a b)
+  | 28 => RBits (v_extmul true false (w / 2) a b) | 29 => RBits (v_extmul true true (w / 2) a b)
+  | 30 => RBits (v_extmul false false (w / 2) a b) | 31 => RBits (v_extmul false true (w / 2) a b)
+  | _ => RNone
   end.
+
+(* f32x4 at 0xe0.., f64x2 at 0xec..: abs neg - sqrt add sub mul div min max pmin pmax *)
+Definition float_family (w j a b : Z) : res :=
+  let '(mw, ew) := fmt w in
+  match j with
+  | 0 => RBits (lanewise1 w (f_abs mw ew) a) | 1 => RBits (lanewise1 w (f_neg mw ew) a)
+  | 3 => flanes1 w (eval_funop w FSqrt) a
+  | 4 => flanes2 w (eval_fbinop w FAdd) a b | 5 => flanes2 w (eval_fbinop w FSub) a b
+  | 6 => flanes2 w (eval_fbinop w FMul) a b | 7 => flanes2 w (eval_fbinop w FDiv) a b
+  | 8 => flanes2 w (eval_fbinop w FMin) a b | 9 => flanes2 w (eval_fbinop w FMax) a b
+  | 10 => RBits (lanewise2 w (f_pmin mw ew) a b) | 11 => RBits (lanewise2 w (f_pmax mw ew) a b)
+  | _ => RNone
+  end.
+
+Definition cmp_res (w k a b : Z) : res :=
+  match irel_of k with Some o => RBits (v_cmp w o a b) | None => RNone end.
+Definition fcmp_res (w k a b : Z) : res :=
+  match frel_of k with Some o => RBits (v_fcmp w o a b) | None => RNone end.
+Definition i64_rel_of (k : Z) : option irelop :=
+  match k with 0 => Some Eq | 1 => Some Ne | 2 => Some LtS | 3 => Some GtS | 4 => Some LeS | 5 => Some GeS | _ => None end.
+
+Definition spec_simd (k imm : Z) (args : list Z) : res :=
+  let a := arg 0 args in let b := arg 1 args in let c := arg 2 args in
+  if k =? 0x0d then RBits (v_shuffle imm a b)
+  else if k =? 0x0e then RBits (v_swizzle a b)
+  else if k =? 0x0f then RBits (v_splat 8 a)
+  else if k =? 0x10 then RBits (v_splat 16 a)
+  else if (k =? 0x11) || (k =? 0x13) then RBits (v_splat 32 a)
+  else if (k =? 0x12) || (k =? 0x14) then RBits (v_splat 64 a)
+  else if k =? 0x15 then RBits (v_extract_s 8 imm a)
+  else if k =? 0x16 then RBits (v_extract_u 8 imm a)
+  else if k =? 0x17 then RBits (v_replace 8 imm a b)
+  else if k =? 0x18 then RBits (v_extract_s 16 imm a)
+  else if k =? 0x19 then RBits (v_extract_u 16 imm a)
+  else if k =? 0x1a then RBits (v_replace 16 imm a b)
+  else if (k =? 0x1b) || (k =? 0x1f) then RBits (v_extract_u 32 imm a)
+  else if (k =? 0x1c) || (k =? 0x20) then RBits (v_replace 32 imm a b)
+  else if (k =? 0x1d) || (k =? 0x21) then RBits (v_extract_u 64 imm a)
+  else if (k =? 0x1e) || (k =? 0x22) then RBits (v_replace 64 imm a b)
+  else if between 0x23 k 0x2c then cmp_res 8 (k - 0x23) a b
+  else if between 0x2d k 0x36 then cmp_res 16 (k - 0x2d) a b
+  else if between 0x37 k 0x40 then cmp_res 32 (k - 0x37) a b
+  else if between 0x41 k 0x46 then fcmp_res 32 (k - 0x41) a b
+  else if between 0x47 k 0x4c then fcmp_res 64 (k - 0x47) a b
+  else if k =? 0x4d then RBits (v_not a)
+  else if k =? 0x4e then RBits (v_and a b)
+  else if k =? 0x4f then RBits (v_andnot a b)
+  else if k =? 0x50 then RBits (v_or a b)
+  else if k =? 0x51 then RBits (v_xor a b)
+  else if k =? 0x52 then RBits (v_bitselect a b c)
+  else if k =? 0x53 then RBits (v_any_true a)
+  else if k =? 0x5e then RLanes 32 (map demote_lane (lanes 64 a) ++ [RBits 0; RBits 0])
+  else if k =? 0x5f then RLanes 64 (map promote_lane (firstn 2 (lanes 32 a)))
+  else if k =? 0x62 then RBits (v_popcnt 8 a)
+  else if k =? 0x67 then flanes1 32 (eval_funop 32 FCeil) a
+  else if k =? 0x68 then flanes1 32 (eval_funop 32 FFloor) a
+  else if k =? 0x69 then flanes1 32 (eval_funop 32 FTrunc) a
+  else if k =? 0x6a then flanes1 32 (eval_funop 32 FNearest) a
+  else if k =? 0x74 then flanes1 64 (eval_funop 64 FCeil) a
+  else if k =? 0x75 then flanes1 64 (eval_funop 64 FFloor) a
+  else if k =? 0x7a then flanes1 64 (eval_funop 64 FTrunc) a
+  else if k =? 0x94 then flanes1 64 (eval_funop 64 FNearest) a
+  else if k =? 0x7c then RBits (v_extadd_pairwise true 8 a)
+  else if k =? 0x7d then RBits (v_extadd_pairwise false 8 a)
+  else if k =? 0x7e then RBits (v_extadd_pairwise true 16 a)
+  else if k =? 0x7f then RBits (v_extadd_pairwise false 16 a)
+  else if k =? 0x82 then RBits (v_q15mulr_sat_s a b)
+  else if k =? 0xba then RBits (v_dot a b)
+  else if between 0xd6 k 0xdb then match i64_rel_of (k - 0xd6) with Some o => RBits (v_cmp 64 o a b) | None => RNone end
+  else if between 0x60 k 0x7f then int_family 8 (k - 0x60) a b
+  else if between 0x80 k 0x9f then int_family 16 (k - 0x80) a b
+  else if between 0xa0 k 0xbf then int_family 32 (k - 0xa0) a b
+  else if between 0xc0 k 0xdf then int_family 64 (k - 0xc0) a b
+  else if between 0xe0 k 0xeb then float_family 32 (k - 0xe0) a b
+  else if between 0xec k 0xf7 then float_family 64 (k - 0xec) a b
+  else if k =? 0xf8 then RBits (lanewise1 32 (f_to_int_sat true 23 8 32) a)
+  else if k =? 0xf9 then RBits (lanewise1 32 (f_to_int_sat false 23 8 32) a)
+  else if k =? 0xfa then RBits (lanewise1 32 (f32_convert true 32) a)
+  else if k =? 0xfb then RBits (lanewise1 32 (f32_convert false 32) a)
+  else if k =? 0xfc then RBits (join_lanes 32 (map (f_to_int_sat true 52 11 32) (lanes 64 a)))
+  else if k =? 0xfd then RBits (join_lanes 32 (map (f_to_int_sat false 52 11 32) (lanes 64 a)))
+  else if k =? 0xfe then RBits (join_lanes 64 (map (f64_convert true 32) (firstn 2 (lanes 32 a))))
+  else if k =? 0xff then RBits (join_lanes 64 (map (f64_convert false 32) (firstn 2 (lanes 32 a))))
+  else RNone.
 
 Fixpoint lanes_ok (ok : res -> Z -> bool) (rs : list res) (os : list Z) : bool :=
   match rs, os with
@@ -173,10 +277,11 @@ Definition res_ok (r : res) (o : Z) : bool :=
   end.
 
 Definition spec_op (op imm : Z) (args : list Z) : res :=
-  match spec_int op args with
-  | RNone => spec_float op args
-  | r => r
-  end.
+  if between 0xfd000 op 0xfd0ff then spec_simd (op - 0xfd000) imm args
+  else match spec_int op args with
+       | RNone => spec_float op args
+       | r => r
+       end.
 
 (* a case: operation, immediate, operand bit patterns, the distinct observations recorded for it *)
 Definition case := (Z * Z * list Z * list Z)%type.
@@ -239,3 +344,6 @@ Fixpoint decode (fuel : nat) (l : list int) : list case :=
     end
   end.
 Definition mismatches_enc (enc : list int) : list (Z * Z) := mismatches 0 (decode (length enc) enc).
+(* the same over a literal cut into chunks (each chunk holds whole cases) *)
+Definition mismatches_chunks (encs : list (list int)) : list (Z * Z) :=
+  mismatches 0 (flat_map (fun enc => decode (length enc) enc) encs).
